@@ -251,7 +251,7 @@ TRUSTED_BASE = [
     'subscriber contract of the model: the channel closes after Close() was called or (ctx-honouring subscribers) after the Subscribe context ended; whether and when the subscriber\'s Close() RETURNS is an environment choice (it may block for ever); handlersLock is folded into closedLock '
     '(AddHandler/RunHandlers/Stop concurrent with Close are outside the model: C10)',
     'the stamp discipline (acquire: stamp after; release: stamp before; close(closingInProgressCh) placed as late as the log allows; pump steps without a hook inserted as late as possible) and the Python mapper checks/c06.py',
-    'Router/CloseMonitor.v mon_run is an executable oracle on the implementation history (not proved equivalent to the model theorems); it is also evaluated on the MODEL\'s own trace of every replayed schedule (must accept for the repaired variant) and proved to reject the D5/D12 witness traces',
+    'Router/CloseMonitor.v mon_run judges the implementation history; it is PROVED to accept every API trace of the repaired model (C06_acceptor_accepts_model) and to reject the D5/D12 witness traces; the mapping of hook stamps to API events is trusted',
 ]
 ASSUMPTIONS = [
     '"every Close call returns" on the implementation is a watchdog (CloseTimeout + 4 s); "Close times out although nothing runs" is judged structurally (a subscriber that was never asked to close), never by wall-clock alone',
